@@ -518,7 +518,8 @@ class MetadorGroup(MetadorNode):
         # (metadata group only exists if the dataset has any metadata attached)
         if src_is_dataset and not without_meta and len(src_node.meta):
             # because metadata lives in parallel group, need to copy separately:
-            src_meta: str = src_node.meta._base_dir
+            # (looked up in the container of the SOURCE node, which can be another one)
+            src_meta = src_node._self_container.__wrapped__[src_node.meta._base_dir]
             dst_meta: str = dst_node.meta._base_dir  # node will not exist yet
             self.__wrapped__.copy(src_meta, dst_meta, **copy_kwargs)  # RAW
 
